@@ -370,6 +370,15 @@ func runC01(args []string) int {
 	for i := range rep.CaseFiles {
 		rep.CaseFiles[i], _ = filepath.Abs(rep.CaseFiles[i])
 	}
+	for _, a := range args {
+		if a == "--oracle-only" {
+			// search mode: something is already known to be broken and only a concrete failing input is wanted;
+			// those come from the implementation-level oracle above, so the (expensive) model evaluation of the
+			// case files is skipped
+			rep.CaseFiles = nil
+			rep.hist("search-mode:oracle-only")
+		}
+	}
 	rep.write("report.json")
 	return 0
 }
